@@ -61,7 +61,43 @@ struct K
             U(FN_ABS, xs::abs(x))
             U(FN_RINT, xs::rint(x))
             U(FN_NEARBYINT, xs::nearbyint(x))
+            U(FN_RECIPROCAL, xs::reciprocal(x))
+            U(FN_RSQRT, xs::rsqrt(x))
+            U(FN_ROUND, xs::round(x))
+            U(FN_CEIL, xs::ceil(x))
+            U(FN_FLOOR, xs::floor(x))
+            U(FN_TRUNC, xs::trunc(x))
+            U(FN_SIGN, xs::sign(x))
+            U(FN_CLIP_UNIT, xs::clip(x, B(T(-1)), B(T(1))))
 #undef U
+        case FN_FREXP_MANT:
+            for (size_t i = 0; i + N <= n; i += N)
+            {
+                xs::batch<xs::as_integer_t<T>, A> e;
+                xs::frexp(B::load_unaligned(in0 + i), e).store_unaligned(out0 + i);
+            }
+            break;
+        case FN_LDEXP_INT:
+            for (size_t i = 0; i + N <= n; i += N)
+            {
+                // the exponent operand: the second input converted lane by lane (saturated to +-4096 so that the conversion is defined)
+                alignas(64) xs::as_integer_t<T> e[N];
+                for (size_t k = 0; k < N; ++k)
+                {
+                    T v = in1[i + k];
+                    e[k] = (xs::as_integer_t<T>)(v != v ? 0 : v > 4096 ? 4096 : v < -4096 ? -4096 : v);
+                }
+                xs::ldexp(B::load_unaligned(in0 + i), xs::batch<xs::as_integer_t<T>, A>::load_aligned(e)).store_unaligned(out0 + i);
+            }
+            break;
+        case FN_FMOD: b([](B x, B y) { return xs::fmod(x, y); }, in0, in1, out0, n); break;
+        case FN_REMAINDER: b([](B x, B y) { return xs::remainder(x, y); }, in0, in1, out0, n); break;
+        case FN_FDIM: b([](B x, B y) { return xs::fdim(x, y); }, in0, in1, out0, n); break;
+        case FN_FMIN: b([](B x, B y) { return xs::fmin(x, y); }, in0, in1, out0, n); break;
+        case FN_FMAX: b([](B x, B y) { return xs::fmax(x, y); }, in0, in1, out0, n); break;
+        case FN_NEXTAFTER: b([](B x, B y) { return xs::nextafter(x, y); }, in0, in1, out0, n); break;
+        case FN_COPYSIGN: b([](B x, B y) { return xs::copysign(x, y); }, in0, in1, out0, n); break;
+        case FN_POLAR_RE: b([](B x, B y) { return xs::polar(x, y).real(); }, in0, in1, out0, n); break;
         case FN_SINCOS:
             for (size_t i = 0; i + N <= n; i += N)
             {
